@@ -288,7 +288,7 @@ def statement(draw, depth=2, in_loop=False, allow_input=True):
             'q0, q1 = (t0 + (1, 2))[:2]\nprint(q0, q1)',
             't0 = (i0, s0, (i1, b0))',
             'if t0 and isinstance(t0[0], int):\n    i2 = t0[0] + 1',
-            'l1 = list(t0)[:10]',
+            'l1 = [e for e in t0 if type(e) is int][:10]',      # (l1 holds ints only: other statements compare and add its elements)
             'print(t0 == tuple(l0), (1, 2) < (1, 3), t0.count(1) if t0 else -1)',
             'for pr2 in zip(l0[:4], ls0):\n    print(pr2[0], pr2[1])',
             'for n2, w2 in zip(l0[:3], (s0 + "ab")[:3]):\n    print(n2, w2)',
